@@ -4,6 +4,7 @@
 import json, os, re, subprocess
 ROOT = os.path.dirname(os.path.dirname(os.path.abspath(__file__)))
 RULES = [
+ (r"linear_combine_lax", "C16"),
  (r"^fix: C interface", "C20"),
  (r"^fix: Pointset_Powerset::simplify_using_context_assign", "C09"),
  (r"^fix: Interval::simplify_using_context_assign", "C04"),
